@@ -17,6 +17,24 @@ structure Env where
   /-- `analyze_python_file(path)[0]` -/
   fileSafe : String → Bool
 
+inductive Cluster where
+  | plain | takesNext | code | module (attached : String)
+  deriving DecidableEq, Repr
+
+/-- the loop of `_scan_cluster` over the characters after the dash; `none` for a character that settles nothing -/
+def scanChars : List Char → Cluster
+  | [] => .plain
+  | c :: rest =>
+    if c = 'W' || c = 'X' then (if rest.isEmpty then .takesNext else .plain)
+    else if c = 'c' then .code
+    else if c = 'm' then .module (String.ofList rest)
+    else scanChars rest
+
+/-- `_scan_cluster`: what a cluster of short options does besides setting flags -/
+def scanCluster (t : String) : Cluster :=
+  if !Py.startsWith t "-" || Py.startsWith t "--" || t.length < 2 then .plain
+  else scanChars (t.toList.drop 1)
+
 /-- `_split_interpreter_options`: (option words without their values, the `-m` module, program) -/
 def splitOpts : Bool → List String → List String × Option String × List String
   | _, [] => ([], none, [])
@@ -26,8 +44,13 @@ def splitOpts : Bool → List String → List String × Option String × List St
     else if t == "-c" then (["-c"], none, rest.drop 1)
     else if t == "-m" then (["-m"], rest.head?, rest.drop 1)
     else if flagsWithArg.contains t then let r := splitOpts true rest; (t :: r.1, r.2.1, r.2.2)
-    else if Py.startsWith t "-" then let r := splitOpts false rest; (t :: r.1, r.2.1, r.2.2)
-    else ([], none, t :: rest)
+    else match scanCluster t with
+      | .code => (["-c"], none, rest.drop 1)
+      | .module att => if att.isEmpty then (["-m"], rest.head?, rest.drop 1) else (["-m"], some att, rest)
+      | .takesNext => let r := splitOpts true rest; (t :: r.1, r.2.1, r.2.2)
+      | .plain =>
+        if Py.startsWith t "-" then let r := splitOpts false rest; (t :: r.1, r.2.1, r.2.2)
+        else ([], none, t :: rest)
 
 /-- `_find_script_path`: the first word that is not an option (`none`: a safe flag, `-c` or `-m` comes first, or no such word) -/
 def findScript : Bool → List String → Option String
@@ -37,8 +60,11 @@ def findScript : Bool → List String → Option String
     if safeFlags.contains t then none
     else if t == "-c" || t == "-m" then none
     else if flagsWithArg.contains t then findScript true rest
-    else if Py.startsWith t "-" then findScript false rest
-    else some t
+    else match scanCluster t with
+      | .code => none
+      | .module _ => none
+      | .takesNext => findScript true rest
+      | .plain => if Py.startsWith t "-" then findScript false rest else some t
 
 inductive Verdict where
   | interactive | safeFlag | inlineCode | moduleCalendar | moduleOther | askOption | noScript
@@ -80,8 +106,22 @@ inductive Runs where
   | script (word : String) (args : List String)
   deriving DecidableEq, Repr
 
-/-- options are read left to right; `-c`, `-m`, a lone dash and the first non-option word end them.  Clusters are not
-    interpreted (a cluster is treated as an opaque option): the handler asks or analyses in those cases. -/
+/-- CPython's short options that take a value (`SHORT_OPTS`: `c:` `m:` `W:` `X:`): the value is the rest of the
+    cluster, or the next word when the cluster ends there; `h`, `?`, `V` ask for help/version -/
+structure ClusterSpec where
+  info : Bool
+  kind : Cluster
+
+def clusterSpecChars : List Char → Bool → ClusterSpec
+  | [], info => ⟨info, .plain⟩
+  | c :: rest, info =>
+    if c = 'c' then ⟨info, .code⟩
+    else if c = 'm' then ⟨info, .module (String.ofList rest)⟩
+    else if c = 'W' || c = 'X' then ⟨info, if rest.isEmpty then .takesNext else .plain⟩
+    else clusterSpecChars rest (info || c = 'h' || c = '?' || c = 'V')
+
+/-- options are read left to right; `-c`, `-m`, a lone dash and the first non-option word end them; help and
+    version requests seen before that win.  Long options other than the tabled ones are opaque flags. -/
 def pythonRuns : Bool → List String → Runs
   | _, [] => .interactive
   | true, _ :: rest => pythonRuns false rest
@@ -91,6 +131,14 @@ def pythonRuns : Bool → List String → Runs
     else if t == "-c" then .code (rest.headD "")
     else if t == "-m" then .module rest.head?
     else if flagsWithArg.contains t then pythonRuns true rest
+    else if Py.startsWith t "-" && !Py.startsWith t "--" && t.length ≥ 2 then
+      let cs := clusterSpecChars (t.toList.drop 1) false
+      if cs.info then .infoOnly
+      else match cs.kind with
+        | .code => .code (rest.headD "")
+        | .module att => if att.isEmpty then .module rest.head? else .module (some att)
+        | .takesNext => pythonRuns true rest
+        | .plain => pythonRuns false rest
     else if Py.startsWith t "-" then pythonRuns false rest
     else .script t rest
 
